@@ -460,6 +460,7 @@ func (C18) Judge(c *Ctx, sc *Scenario) []Violation {
 		}
 		if !c.Quiet {
 			c.Stats.Distinct("hist"+shortHash([]byte(h)), len(lib.History) >= 2)
+			c.Stats.DistinctIn("histories (hash of the result sequence)", shortHash([]byte(h)))
 			c.Stats.Add("history_steps", int64(len(lib.History)))
 		}
 	case "interleave":
@@ -474,6 +475,7 @@ func (C18) Judge(c *Ctx, sc *Scenario) []Violation {
 		}
 		if !c.Quiet {
 			c.Stats.Distinct("il"+res.ScheduleSig, res.Switches > len(lib.Tasks))
+			c.Stats.DistinctIn("interleavings (hash of the (task, yield site) sequence)", res.ScheduleSig)
 			c.Stats.Add("interleave_yields", res.Yields)
 			c.Stats.Add("interleave_task_switches", int64(res.Switches))
 			for _, s := range res.Sites {
